@@ -86,11 +86,15 @@ def build_config(entrypoint, include_none=False):
 
     config = {}
     configurable = entrypoint_configurables[entrypoint]
+    # First the built-in defaults of all classes, then the sections from disk,
+    # so that a default re-declared by a subclass does not mask a value that
+    # was configured in the section of a base class:
     for c in reversed(configurable.mro()):
         if issubclass(c, NbdimeConfigurable):
             recursive_update(config, config_instance(c).configured_traits(c), include_none)
-            if (c.__name__ in disk_config):
-                recursive_update(config, disk_config[c.__name__], include_none)
+    for c in reversed(configurable.mro()):
+        if issubclass(c, NbdimeConfigurable) and c.__name__ in disk_config:
+            recursive_update(config, disk_config[c.__name__], include_none)
 
     return config
 
